@@ -23,6 +23,9 @@ import Ecal.Model.Parser
     `import`: [string, identifier] (rt_general.go:148-159); `return`: at most 1 (rt_func.go:55);
     `identifier`: children are identifier/funccall/compaccess, `compaccess` and `guard` have 1 child
     (rt_identifier.go:324-338, prettyprinter.go:586-593).
+* every node name is one of the known node kinds (`kindOf name ≠ .unknown`): the runtime provider has no
+  entry for any other name, and the pretty printer no template — in particular the nameless node a
+  block-start brace used to become inside a guard expression (`if [ { { a } ] { }`) is rejected;
 * deliberately NOT a clause: entries of a `map` are `kvp` (rt_value.go guards it now), children of
   `params` are identifier/preset (rt_func.go checks the name before indexing), `list`/`funccall`/
   `statements` children (ranged over).
@@ -32,7 +35,7 @@ open Ecal.Lex
 
 inductive Kind where
   | terminal | binary | plusminus | prefix1 | import_ | identifier | one | return_ | if_ | loop | try_
-  | except | blockOnly | function | sink | mutex | free
+  | except | blockOnly | function | sink | mutex | container | unknown
   deriving DecidableEq, Repr
 
 def kindOf (name : String) : Kind :=
@@ -57,7 +60,8 @@ def kindOf (name : String) : Kind :=
   else if name = "function" then .function
   else if name = "sink" then .sink
   else if name = "mutex" then .mutex
-  else .free
+  else if name = "list" ∨ name = "map" ∨ name = "funccall" ∨ name = "params" ∨ name = "statements" then .container
+  else .unknown
 
 /-- what a parent looks at in a child: its name and its number of children -/
 abbrev Sig := String × Nat
@@ -93,7 +97,8 @@ def shapeOk (name : String) (cs : List Sig) : Bool :=
   | .function => cs.map (·.1) = ["params", "statements"] || cs.map (·.1) = ["identifier", "params", "statements"]
   | .sink => (cs.head?.map (·.1)) = some "identifier" && (cs.getLast?.map (·.1)) = some "statements" && 2 ≤ cs.length
   | .mutex => cs.map (·.1) = ["identifier", "statements"]
-  | .free => true
+  | .container => true
+  | .unknown => false   -- every node name is a known node kind (no `""` block-brace node, no `"?"`)
 
 /-- nodes the parser constructs without a token -/
 def tokenless (name : String) : Bool :=
